@@ -472,27 +472,27 @@ func dec(kind int, b ...byte) corpusCase {
 // earlier failures.  They run first on every check.
 func corpus() []corpusCase {
 	cs := []corpusCase{
-		dec(3, 0x32, 0x07, 0x00, 0x03, 'a', '/', 'b'),                  // truncated PUBLISH packet id
-		dec(3),                                                        // empty input
-		dec(4),                                                        //
-		dec(3, 0x30, 0x03, 0x00, 0x05, 'a'),                            // length prefix overrun
-		dec(1, 0x10, 0x06, 0x00, 0x04, 'M', 'Q', 'T', 'T'),             // short CONNECT (ended the broker process)
-		dec(4, 0x40, 0xff, 0xff, 0xff, 0xff, 0x7f, 0x00, 0x01, 0, 0),   // 5-byte varint
-		dec(14, 0xe0, 0x80),                                           // unterminated varint
-		dec(12, 0xc0, 0x80),                                           //
-		dec(4, 0x40, 0x02, 0x00, 0x07, 0xde, 0xad),                     // trailing bytes: dbuf must be the packet only
-		dec(4, 0x40, 0x03, 0x00, 0x07, 0x01),                           // PUBACK with remaining length 3
-		dec(14, 0xe0, 0x80, 0x00),                                      // non-minimal remaining length must re-encode unchanged
-		dec(14, 0xe0, 0x02, 0x01, 0x02),                                // DISCONNECT with a body
+		dec(3, 0x32, 0x07, 0x00, 0x03, 'a', '/', 'b'), // truncated PUBLISH packet id
+		dec(3),                              // empty input
+		dec(4),                              //
+		dec(3, 0x30, 0x03, 0x00, 0x05, 'a'), // length prefix overrun
+		dec(1, 0x10, 0x06, 0x00, 0x04, 'M', 'Q', 'T', 'T'),           // short CONNECT (ended the broker process)
+		dec(4, 0x40, 0xff, 0xff, 0xff, 0xff, 0x7f, 0x00, 0x01, 0, 0), // 5-byte varint
+		dec(14, 0xe0, 0x80),                        // unterminated varint
+		dec(12, 0xc0, 0x80),                        //
+		dec(4, 0x40, 0x02, 0x00, 0x07, 0xde, 0xad), // trailing bytes: dbuf must be the packet only
+		dec(4, 0x40, 0x03, 0x00, 0x07, 0x01),       // PUBACK with remaining length 3
+		dec(14, 0xe0, 0x80, 0x00),                  // non-minimal remaining length must re-encode unchanged
+		dec(14, 0xe0, 0x02, 0x01, 0x02),            // DISCONNECT with a body
 		dec(10, 0xa2, 0x11, 0x00, 0x09, 0, 1, 'a', 0, 1, 'b', 0, 1, 'c', 0, 1, 'd', 0, 1, 'e'), // 5 one-letter topics
-		dec(8, 0x82, 0x06, 0x00, 0x01, 0x00, 0x01, 'a'),                // SUBSCRIBE without the QoS byte
-		dec(9, 0x90, 0x01, 0x00),                                       // SUBACK shorter than a packet id
-		dec(2, 0x20, 0x01, 0x00),                                       // CONNACK too short
+		dec(8, 0x82, 0x06, 0x00, 0x01, 0x00, 0x01, 'a'),                                        // SUBSCRIBE without the QoS byte
+		dec(9, 0x90, 0x01, 0x00), // SUBACK shorter than a packet id
+		dec(2, 0x20, 0x01, 0x00), // CONNACK too short
 		{3, 65535, []hx.Group{hx.GB([]int64{opTopic}, []byte("a")), hx.GB([]int64{opPayload}, []byte("x")), hx.G(opQos, 1), hx.G(opLenEnc, 0, 0), hx.G(opFields)}}, // packet id 0
 		{8, 65535, []hx.Group{hx.GB([]int64{opSubAdd, 1}, []byte("a")), hx.G(opLenEnc, 0, 0), hx.G(opFields)}},
 		{10, 131071, []hx.Group{hx.GB([]int64{opUnsAdd}, []byte("a")), hx.G(opLenEnc, 0, 0), hx.G(opFields)}},
 		{3, 0, []hx.Group{hx.GB([]int64{opTopic}, []byte("a")), hx.G(opQos, 1), hx.G(opSetPid, 5), hx.G(opLenEnc, 0, 0), hx.G(opFields)}}, // empty payload
-		{2, 0, []hx.Group{hx.G(opCode, 0), hx.G(opLenEnc, 0, 0)}}, // CONNACK flags byte must be written
+		{2, 0, []hx.Group{hx.G(opCode, 0), hx.G(opLenEnc, 0, 0)}},                                                                         // CONNACK flags byte must be written
 	}
 	return cs
 }
